@@ -585,7 +585,7 @@ class _Recorder:
         return out
 
 
-def sdk_program(rng, nq):
+def sdk_program(rng, nq, no_st=False):
     """A random host program on the real SDK (NV compiler selected); returns the list of
     (vanilla subroutine JSON, real transpiler result) per flushed subroutine, or None if the SDK
     itself rejected the program."""
@@ -604,6 +604,8 @@ def sdk_program(rng, nq):
             def gate():
                 q = rng.choice(qs)
                 k = rng.randrange(12)
+                if no_st and k in (5, 6):
+                    k = rng.randrange(5)
                 if k < 7:
                     getattr(q, "XYZHKST"[k])()
                 elif k < 10:
